@@ -2,7 +2,7 @@
 (***************************************************************************)
 (* Judge for C17: validates traces recorded by harness/C17_crunchrun from  *)
 (* the real copier.Copy against OutputCopy!CopyOK.  Events:                *)
-(*  {"ev":"reset","scn":id,"nodes":[{path,k,c,abs,tg}..],"mnt":mode,       *)
+(*  {"ev":"reset","scn":id,"nodes":[{path,k,c,abs,tg}..],"mroot":[name..],       *)
 (*        "mpath":[name..],"mount":[stream..],"sec":[name..]}              *)
 (*  {"ev":"copy","kind":"ok"|"error"|"panic"|"unparseable",                *)
 (*        "out":[stream..],"nb":[{"id":i,"segs":[[cid,off,len]..]}..]}     *)
@@ -19,12 +19,12 @@ tvars == <<sc, l, skipping>>
 EmptyTree == [p \in {} |-> None]
 TraceInit == /\ l = 1
              /\ skipping = FALSE
-             /\ sc = [tree |-> EmptyTree, mnt |-> "none", mpath |-> <<>>, mount |-> <<>>, sec |-> <<>>, done |-> TRUE]
+             /\ sc = [tree |-> EmptyTree, mroot |-> <<>>, mpath |-> <<>>, mount |-> <<>>, sec |-> <<>>, done |-> TRUE]
 
 NodeFrom(nodes, p) == LET n == CHOOSE x \in Range(nodes) : x.path = p IN Mk(n.k, n.c, n.abs, n.tg)
 TraceReset == /\ IsEvent("reset")
               /\ sc' = [tree |-> [p \in {x.path : x \in Range(Ev.nodes)} |-> NodeFrom(Ev.nodes, p)],
-                        mnt |-> Ev.mnt, mpath |-> Ev.mpath, mount |-> Ev.mount, sec |-> Ev.sec, done |-> TRUE]
+                        mroot |-> Ev.mroot, mpath |-> Ev.mpath, mount |-> Ev.mount, sec |-> Ev.sec, done |-> TRUE]
               /\ skipping' = FALSE
 
 TraceCopy == /\ l <= Len(Trace)
